@@ -155,34 +155,31 @@ dither_init (SF_PRIVATE *psf, int mode)
 		if (pdither == NULL)
 			return SFE_MALLOC_FAILED ;
 
-		switch (SF_CODEC (psf->sf.format))
-		{	case SF_FORMAT_DOUBLE :
-			case SF_FORMAT_FLOAT :
-					pdither->write_int = psf->write_int ;
-					psf->write_int = dither_write_int ;
-					break ;
-
-			case SF_FORMAT_PCM_32 :
-			case SF_FORMAT_PCM_24 :
-			case SF_FORMAT_PCM_16 :
-			case SF_FORMAT_PCM_S8 :
-			case SF_FORMAT_PCM_U8 :
-					break ;
-
-			default : break ;
+		/*
+		** Remember each of the codec's write functions exactly once : saving a
+		** pointer that is already one of the dither functions (second call of
+		** the command, or the former extra step for float / double files) makes
+		** that function call itself until the stack is exhausted.
+		*/
+		if (psf->write_short != dither_write_short)
+		{	pdither->write_short = psf->write_short ;
+			psf->write_short = dither_write_short ;
 			} ;
 
-		pdither->write_short = psf->write_short ;
-		psf->write_short = dither_write_short ;
+		if (psf->write_int != dither_write_int)
+		{	pdither->write_int = psf->write_int ;
+			psf->write_int = dither_write_int ;
+			} ;
 
-		pdither->write_int = psf->write_int ;
-		psf->write_int = dither_write_int ;
+		if (psf->write_float != dither_write_float)
+		{	pdither->write_float = psf->write_float ;
+			psf->write_float = dither_write_float ;
+			} ;
 
-		pdither->write_float = psf->write_float ;
-		psf->write_float = dither_write_float ;
-
-		pdither->write_double = psf->write_double ;
-		psf->write_double = dither_write_double ;
+		if (psf->write_double != dither_write_double)
+		{	pdither->write_double = psf->write_double ;
+			psf->write_double = dither_write_double ;
+			} ;
 		} ;
 
 	return 0 ;
